@@ -57,6 +57,12 @@ Poke(i, how) ==
   /\ heap' = IF Bug = "setattr_allowed" /\ how = "set_new" THEN [heap EXCEPT ![i].val = 9] ELSE heap
   /\ obs' = O(<<how, IF Bug = "setattr_allowed" /\ how = "set_new" THEN "accepted" ELSE "AttributeError">>)
 
+(* the dictionary handed out by as_dict() is edited (a key overwritten, one deleted, one added): it is the caller's own *)
+EditDict(i) ==
+  /\ Op /\ i \in DOMAIN heap
+  /\ heap' = heap
+  /\ obs' = O(<<"dict_edited", i>>)
+
 (* the list / set / dict originally passed to the constructor are mutated afterwards *)
 MutateInput(i) ==
   /\ Op /\ i \in DOMAIN heap /\ heap[i].cls \in {"cont", "deep"} /\ heap[i].ext > 0   \* only instances built from external containers
@@ -100,7 +106,7 @@ Compare(i, j) ==
 
 Next == \/ \E c \in Classes, v \in 0..2 : Construct(c, v)
         \/ \E i \in Ids : \/ \E how \in Pokes : Poke(i, how)
-                          \/ MutateInput(i)
+                          \/ MutateInput(i) \/ EditDict(i)
                           \/ \E how \in {"valid", "invalid", "invalid_eq", "unknown"} : Updated(i, how)
                           \/ \E deep \in BOOLEAN : Copy(i, deep)
                           \/ \E j \in Ids : Compare(i, j)
